@@ -10,6 +10,7 @@ PROOF_TARGETS = ['coq/C15/Proofs.vo']
 PROPS_FILE = 'coq/Props/C15.v'
 RUN_MODULE = 'QCE.C15.Run'
 COQ_HEADER = 'From QCE Require Import C08.Tree C08.Model C15.Model C15.Spec.\nFrom Gen Require Import Tables.'
+REPEAT_REVERSED = True     # every case is evaluated twice per run, the second time in reversed order in the same processes
 IMPL = 'harness/impl/c15_impl.py'
 SHARD = 60
 IMPL_KW = {'shards': 8}
